@@ -8,6 +8,7 @@ returns what the algorithm holds and equals the twin's manual loop (S4), an
 early stop with tol=0 is a genuine fixed point or a flagged breakdown (S5),
 power-iteration estimates are monotone and bounded by lambda_max (S6)."""
 import copy
+import random
 
 import numpy as np
 
@@ -56,9 +57,37 @@ class System:
         self.solution = None  # callable -> list of arrays / scalars
         self.extra = []  # harness-held arrays that are part of the solver state
         self.breakdown = lambda: False
+        self.curvature = None  # callable -> dict when the flagged breakdown has no non-positive curvature behind it
         self.scale = 1.0
         self.power = None  # dict(lmax=...)
         self.expected_output = None  # callable -> object run() must return
+
+
+def _curvature_probe(S, Amat):
+    """The harness knows the system matrix is Hermitian positive definite.  When CG flags a
+    breakdown, <p, A p> re-computed in double precision from the solver's own search direction
+    tells whether there was any non-positive curvature to detect.  Unjudged (None) when the
+    direction has underflowed (an exact stop) or the matrix is numerically singular in the
+    solver's precision - there a rounded <p, A p> <= 0 is an honest observation."""
+    A64 = np.asarray(Amat).astype(np.complex128)
+    A64 = (A64 + A64.conj().T) / 2
+    w = np.linalg.eigvalsh(A64)
+    lmin, lmax = float(w[0]), float(w[-1])
+
+    def probe():
+        p = getattr(S.alg, "p", None)
+        if p is None or lmin <= 0:
+            return None
+        fi = np.finfo(np.asarray(p).dtype if np.asarray(p).dtype.kind in "fc" else np.float64)
+        pv = np.asarray(p).astype(np.complex128).ravel()
+        pp = float(np.real(np.vdot(pv, pv)))
+        if not np.isfinite(pp) or lmin / lmax < 1e3 * fi.eps or lmin * pp < 1e6 * float(fi.tiny):
+            return None
+        pAp = float(np.real(np.vdot(pv, A64 @ pv)))
+        if pAp > 0.5 * lmin * pp:
+            return {"pAp": pAp, "pp": pp, "lambda_min": lmin, "lambda_max": lmax, "dtype": np.asarray(p).dtype.name}
+        return None
+    return probe
 
 
 class StopWorld(World):
@@ -129,9 +158,17 @@ class StopWorld(World):
             ev = [round(10 ** rng.uniform(0, 2), 3) for _ in range(n)]
             if rng.random() < 0.3:
                 ev = [ev[0]] * n
+            elif rng.random() < 0.35:
+                # severely ill-conditioned (Hilbert-like): floating-point CG is far from the
+                # solution after n updates, so stopping there is not a fixed point
+                ev = [float(10 ** (-2.0 * i)) for i in range(n)]
             A, _ = common.hpd(g, n, cplx, ev)
             sysd["A"] = codec.enc(A)
             sysd["bkind"] = rng.choice(["random", "zero", "eigvec"])
+            # single-precision data (own generator: the other sessions' plans stay what they were)
+            # (not together with the tiny data scales: <r, r> of 1e-9-sized single-precision data
+            # underflows to zero after a few updates, which is arithmetic, not a stopping rule)
+            sysd["single"] = random.Random("stop-cg-single:%d" % seed).random() < 0.25 and sysd["scale"] >= 1.0
         if kind == "pdhg":
             sysd["sigma"] = float(round(10 ** rng.uniform(-3, 0), 5))
             sysd["steps"] = rng.choice(["scalar", "scalar", "array"])
@@ -330,6 +367,10 @@ class StopWorld(World):
             x = codec.dec(sysd["x0"]).astype(Amat.dtype)
             if sysd.get("x0kind") == "exact":
                 x = np.linalg.solve(Amat, b)
+            if sysd.get("single"):
+                sdt = np.complex64 if Amat.dtype.kind == "c" else np.float32
+                Amat, b, x = Amat.astype(sdt), b.astype(sdt), x.astype(sdt)
+                stats["buggify.single_precision_data"] += 1
             def Acg(v):
                 if sysd.get("interfere"):
                     common.run_other_solvers(v.shape, v.dtype, stats)
@@ -338,6 +379,7 @@ class StopWorld(World):
             S.site = "ConjugateGradient"
             S.solution = lambda: [S.alg.x]
             S.breakdown = lambda: bool(S.alg.not_positive_definite)
+            S.curvature = _curvature_probe(S, Amat)
             S.scale = float(np.linalg.norm(b) + sc_)
         elif kind == "pdhg":
             normA = float(np.linalg.norm(M, 2)) or 1.0
@@ -757,6 +799,12 @@ class StopWorld(World):
                 stats["probes.early_stop"] += 1
                 if S.breakdown():
                     stats["probes.early_stop_breakdown_flag"] += 1
+                    cv = S.curvature() if S.curvature is not None else None
+                    if cv is not None:
+                        # "a breakdown was detected": on a positive-definite system with a healthy
+                        # search direction there is no breakdown to detect
+                        self._flag(res, "breakdown_flagged_without_non_positive_curvature", type(alg).__name__, step,
+                                   dict(cv, iter=alg.iter, max_iter=mi))
                     return
                 if not hasattr(alg, "tol"):
                     # the property conditions early stops on tol=0; SDMM (eps_pri/eps_dual),
@@ -768,6 +816,11 @@ class StopWorld(World):
                 rtol_ = 1e-5 if single_ else 1e-12   # a solution held in single precision rests at its own resolution
                 remaining = mi - alg.iter
                 worst = 0.0
+                # a caller that does not poll done() before every update may already have driven the
+                # solver past an exact stop (<r, r> underflowed to 0, then 0/0 in CG's beta): its
+                # internal vectors are then non-finite although the solution it holds is not
+                poisoned = any(isinstance(v_, np.ndarray) and v_.dtype.kind in "fc" and not np.all(np.isfinite(v_))
+                               for v_ in vars(alg).values())
                 for j in range(remaining):
                     try:
                         alg.update()
@@ -779,7 +832,7 @@ class StopWorld(World):
                     dev = max(float(np.max(np.abs(np.asarray(a, dtype=np.complex128) - np.asarray(b, dtype=np.complex128))))
                               if np.size(a) else 0.0 for a, b in zip(s1, s0))
                     worst = max(worst, dev)
-                    if not np.isfinite(dev) and j > 0:
+                    if not np.isfinite(dev) and (j > 0 or poisoned):
                         # the first further update left the solution unchanged; what a solver
                         # does when it is driven on and on past an exact stop (0/0 in CG's beta
                         # once <r, r> has underflowed) is not covered by the statement
